@@ -54,6 +54,20 @@ fn mid_knapsack(r: &mut Rng) -> LinearModel {
     m
 }
 
+/// a knapsack whose profits are thousandths: every objective value is below 1, where an "epsilon relative to the
+/// incumbent" silently turns absolute
+fn small_scale_knapsack(r: &mut Rng) -> LinearModel {
+    let n = 5 + r.below(4);
+    let mut m = LinearModel::new();
+    for i in 0..n { m.add_variable(&format!("b{}", i), VariableType::Boolean); }
+    let w: Vec<f64> = (0..n).map(|_| 2.0 + r.below(8) as f64).collect();
+    let cap = (w.iter().sum::<f64>() * 0.5).floor() + 0.5;
+    m.add_named_constraint(w, Comparison::LessOrEqual, cap, "cap");
+    let v: Vec<f64> = (0..n).map(|_| (1 + r.below(20)) as f64 * 1e-3).collect();
+    m.set_objective(v, OptimizationType::Max);
+    m
+}
+
 /// the 5-item knapsack of the design-phase probe
 pub fn seeded_knapsack() -> LinearModel {
     let mut m = LinearModel::new();
@@ -73,14 +87,14 @@ fn raw_status(o: &Outcome) -> String {
 /// how the options reach the solver: the `MilpOptions` struct of `solve_milp_lp_problem_with`, or the builder methods
 /// `Microlp::new().with_mip_gap(..).with_time_limit(..)` + `Solver::solve`
 #[derive(Clone, Copy, PartialEq)]
-pub enum Entry { Direct, Builder }
+pub enum Entry { Direct, Builder, Door }
 
 fn one(lm: &LinearModel, lms: &str, base: &Outcome, gap: (Option<f64>, &str), limit: Option<u64>, fam: &str, fixed: bool, out: &mut Vec<Case>) {
     one_entry(Entry::Direct, lm, lms, base, gap, limit, fam, fixed, out);
 }
 
 fn one_entry(entry: Entry, lm: &LinearModel, lms: &str, base: &Outcome, gap: (Option<f64>, &str), limit: Option<u64>, fam: &str, fixed: bool, out: &mut Vec<Case>) {
-    let kind = if entry == Entry::Direct { SolverKind::Milp } else { SolverKind::BuilderMicrolp };
+    let kind = match entry { Entry::Direct => SolverKind::Milp, Entry::Builder => SolverKind::BuilderMicrolp, Entry::Door => SolverKind::BuilderDoorMicrolp };
     let opts = Opts { time_limit_ns: limit, mip_gap_bits: gap.0.map(f64::to_bits), simplex_limit: 0 };
     // the raw answer of microlp is reproducible only when the clock plays no role
     // (a limit of a second or more never fires on these models)
@@ -99,19 +113,22 @@ fn one_entry(entry: Entry, lm: &LinearModel, lms: &str, base: &Outcome, gap: (Op
     let res = gen_lp::result(&o);
     let mut c = Case::default();
     c.imp = res.clone();
-    if deterministic && !matches!(o, Outcome::Hang) {
+    if deterministic && entry != Entry::Door && !matches!(o, Outcome::Hang) {
         if let Some(raw) = gen_lp::mlp(&raw) {
             let name = match (entry, fixed) {
                 (Entry::Direct, true) => "milp-with-fixed", (Entry::Direct, false) => "milp-with",
                 (Entry::Builder, true) => "builder-microlp-fixed", (Entry::Builder, false) => "builder-microlp",
+                (Entry::Door, _) => unreachable!(),
             };
             c.req = format!("{} {} {} {} {}", name, lms, enc_gap(gap.0), enc_limit(limit), raw);
         }
     }
-    c.oracle = format!("label {} {} {} {} {} {}", lms, enc_gap(gap.0), enc_limit(limit), res, gen_lp::result(base), raw_status(&raw));
+    if entry != Entry::Door {
+        c.oracle = format!("label {} {} {} {} {} {}", lms, enc_gap(gap.0), enc_limit(limit), res, gen_lp::result(base), raw_status(&raw));
+    }
     let limit_tag = match limit { None => "limit-none".to_string(), Some(n) => format!("limit-{}ns", n) };
     c.tags = vec![format!("family-{}", fam), gap.1.to_string(), limit_tag,
-        if entry == Entry::Direct { "entry-milp-options".into() } else { "entry-builder-microlp".into() },
+        match entry { Entry::Direct => "entry-milp-options".into(), Entry::Builder => "entry-builder-microlp".into(), Entry::Door => "entry-model-builder-solve-with".to_string() },
         format!("microlp-status-{}", raw_status(&raw)),
         if fixed { "wrapper-reads-status".into() } else { "wrapper-ignores-status".into() },
         match &o {
@@ -121,6 +138,13 @@ fn one_entry(entry: Entry, lm: &LinearModel, lms: &str, base: &Outcome, gap: (Op
             Outcome::Hang => "answer-hang".into(),
         }];
     c.nontrivial = limit.is_some() || gap.0.is_some();
+    // the status (and everything else) must read the same through EVERY accessor: inherent, capability traits, BuilderSolution
+    if let Outcome::Solution(sol) = &o {
+        if let Some(d) = gen_lp::accessor_disagreement(sol) {
+            c.impl_violation = Some(format!("the accessors of the returned solution disagree: {}", d));
+            c.sig = Some("accessor-disagreement".into());
+        }
+    }
     c.show = if entry == Entry::Direct { format!("solve_milp_lp_problem_with(gap {:?}, time_limit {:?} ns) on: {}", gap.0, limit, show_model(lm)) }
              else { format!("Microlp::new().with_mip_gap({:?}).with_time_limit({:?} ns).solve on: {}", gap.0, limit, show_model(lm)) };
     out.push(c);
@@ -151,6 +175,8 @@ pub fn generate(seed: u64, n: usize, _thorough: bool, _corpus: Option<&str>) -> 
         }
         one_entry(Entry::Builder, lm, &lms, &base, gaps[0], None, fam, fixed, &mut cases);
         one_entry(Entry::Builder, lm, &lms, &base, gaps[0], Some(0), fam, fixed, &mut cases);
+        one_entry(Entry::Door, lm, &lms, &base, gaps[0], Some(0), fam, fixed, &mut cases);
+        one_entry(Entry::Door, lm, &lms, &base, gaps[0], None, fam, fixed, &mut cases);
         for _ in 0..3 {
             let g = gaps[r.below(gaps.len())];
             let l = LIMITS[1 + r.below(LIMITS.len() - 1)];
@@ -171,6 +197,17 @@ pub fn generate(seed: u64, n: usize, _thorough: bool, _corpus: Option<&str>) -> 
             one_entry(e, &lm, &lms, &base, gaps[2], None, "near-tied-large-coefficients", fixed, &mut cases);
         }
     }
+    // objective values below 1 (profits in thousandths) with POSITIVE gaps: a relative gap must stay relative
+    for _ in 0..(n / 3).max(20) {
+        let lm = small_scale_knapsack(&mut r);
+        let lms = sx::lin_model(&lm);
+        let base = child::solve(SolverKind::Milp, &lm, &Opts::default(), TIMEOUT);
+        for g in [(Some(0.01), "gap-1e-2"), (Some(0.001), "gap-1e-3"), (Some(0.05), "gap-5e-2")] {
+            one_entry(Entry::Direct, &lm, &lms, &base, g, None, "small-magnitude-objective", fixed, &mut cases);
+            one_entry(Entry::Builder, &lm, &lms, &base, g, None, "small-magnitude-objective", fixed, &mut cases);
+        }
+    }
+    // searches stopped mid-way (incumbent known): the label through every accessor
     // searches stopped mid-way
     for _ in 0..(n / 20).max(2) {
         let lm = mid_knapsack(&mut r);
@@ -180,6 +217,8 @@ pub fn generate(seed: u64, n: usize, _thorough: bool, _corpus: Option<&str>) -> 
             one(&lm, &lms, &base, gaps[0], l, "mid-search-knapsack", fixed, &mut cases);
         }
         one(&lm, &lms, &base, gaps[3], Some(100_000), "mid-search-knapsack", fixed, &mut cases);
+        one_entry(Entry::Door, &lm, &lms, &base, gaps[0], Some(100_000), "mid-search-knapsack", fixed, &mut cases);
+        one_entry(Entry::Door, &lm, &lms, &base, gaps[0], Some(400_000), "mid-search-knapsack", fixed, &mut cases);
     }
     child::shutdown();
     cases
